@@ -11,14 +11,14 @@ import (
 
 // VerifyExpandedWithOptions(NewExpandedPublicKey(pk), ...) == the same predicate as plain verification.
 //
-//verif:ob prop=C09,C01 name=VerifyExpanded_eq_predicate mode=bv tags=purego use=gapi split=mode:0..2;ns:0+63..65;nm:0..1;nc:1+255
+//verif:ob prop=C09,C01 name=VerifyExpanded_eq_predicate mode=bv tags=purego use=gapi split=mode:0..2;ns:0+63..65;nm:0..1;nc:0..1+255
 func vh_C09_expanded() {
 	mode, ns, nm, nc := verif.Case("mode"), verif.Case("ns"), verif.Case("nm"), verif.Case("nc")
 	if mode == 2 {
 		nm = 64
 	}
-	if mode == 0 {
-		nc = 0
+	if (mode == 0) != (nc == 0) && mode != 2 {
+		return // pure Ed25519 has no context, Ed25519ctx needs one; Ed25519ph takes any context incl. the empty one
 	}
 	pk := make([]byte, 32)
 	verif.AnyBytes("pk", pk)
